@@ -6,6 +6,7 @@ import (
 	"context"
 	"errors"
 	"fmt"
+	"go.uber.org/zap"
 	"log/slog"
 	"strings"
 	"time"
@@ -282,7 +283,27 @@ func runProgram(r *ev.Run, id string, i int) {
 	rr := g.R
 	sink := &rec.Sink{}
 	threshold := zapcore.Level(rr.Intn(5) - 1) // debug..error, or warn etc.
-	core := zapcore.NewCore(zapcore.NewJSONEncoder(encCfg), sink, threshold)
+	// the core's enabler: a static threshold, an AtomicLevel that moves between uses of the
+	// handlers, or a non-monotone set of levels (debug..error)
+	coreOn := func(l zapcore.Level) bool { return l >= threshold }
+	var coreEn zapcore.LevelEnabler = threshold
+	var atom *zap.AtomicLevel
+	enDesc := "static"
+	switch rr.Intn(4) {
+	case 0:
+		al := zap.NewAtomicLevelAt(threshold)
+		atom, coreEn, enDesc = &al, al, "atomic"
+	case 1:
+		var set [4]bool
+		for x := range set {
+			set[x] = rr.Bool()
+		}
+		coreOn = func(l zapcore.Level) bool { return l >= zapcore.DebugLevel && l <= zapcore.ErrorLevel && set[l+1] }
+		coreEn = zap.LevelEnablerFunc(coreOn)
+		enDesc = fmt.Sprintf("set%v", set)
+	}
+	r.SetAdd("core_enabler_kinds", enDesc[:3])
+	core := zapcore.NewCore(zapcore.NewJSONEncoder(encCfg), sink, coreEn)
 	name := rng.Pick(rr, []string{"", "svc", "a.b"})
 	root := &hnode{id: 0, h: zapslog.NewHandler(core, zapslog.WithName(name), zapslog.AddStacktraceAt(slog.Level(100))), parent: -1, how: "root"}
 	nodes := []*hnode{root}
@@ -359,8 +380,12 @@ func runProgram(r *ev.Run, id string, i int) {
 		viaLogger := rr.P(1, 4)
 		trace = append(trace, fmt.Sprintf("h%d.Handle(level=%d, %q, %s) viaLogger=%v", n.id, lvl, msg, descs(as), viaLogger))
 		sink.Reset()
+		if atom != nil && rr.P(1, 3) {
+			threshold = zapcore.Level(rr.Intn(5) - 1)
+			atom.SetLevel(threshold) // handlers built earlier must follow
+		}
 		zl := mapLevel(lvl)
-		wantHandled := zl >= threshold
+		wantHandled := coreOn(zl)
 		r.SetAdd("slog_levels", fmt.Sprint(int(lvl)))
 		// the record keeps only what slog's own Record.AddAttrs keeps (it drops empty groups)
 		var kept []mAttr
@@ -393,7 +418,7 @@ func runProgram(r *ev.Run, id string, i int) {
 		}
 		r.Count("records_judged", 1)
 		if enabled != wantHandled {
-			fail("slog-enabled", "h%d: Enabled(%d) = %v but the core (threshold %v) enables the mapped level %v = %v", n.id, lvl, enabled, threshold, zl, wantHandled)
+			fail("slog-enabled", "h%d: Enabled(%d) = %v but the core (enabler %s, threshold %v) enables the mapped level %v = %v", n.id, lvl, enabled, enDesc, threshold, zl, wantHandled)
 			return
 		}
 		ws := sink.Writes()
@@ -474,5 +499,79 @@ func Run(r *ev.Run) {
 		}
 		r.Eval(1)
 		runProgram(r, id, i)
+	}
+	valuerReuse(r)
+}
+
+// ---- a LogValuer inside a group that is used again and again -------------------------------------
+
+type countingValuer struct{ n *int }
+
+func (c countingValuer) LogValue() slog.Value { *c.n++; return slog.IntValue(*c.n) }
+
+// valuerReuse: one group attribute holding a LogValuer is handed to several records and to
+// WithAttrs of sibling handlers while the valuer's result changes. Every use must resolve it
+// afresh, and the caller's attribute must still hold the LogValuer afterwards (a handler must not
+// write resolved values back into the caller's attributes).
+func valuerReuse(r *ev.Run) {
+	n := r.N(300, 20000)
+	for i := 0; i < n; i++ {
+		id := fmt.Sprintf("c18/valuer-reuse/%d", i)
+		if !r.Want(id) {
+			continue
+		}
+		g := rng.For(r.Seed, "c18/valuer", i)
+		sink := &rec.Sink{}
+		core := zapcore.NewCore(zapcore.NewJSONEncoder(zapcore.EncoderConfig{MessageKey: "msg"}), sink, zapcore.DebugLevel)
+		root := zapslog.NewHandler(core)
+		cnt := 0
+		inner := []slog.Attr{slog.Any("cv", countingValuer{&cnt}), slog.Int("x", 1)}
+		var grp slog.Attr
+		nested := g.Bool()
+		if nested {
+			grp = slog.Group("outer", slog.Attr{Key: "g", Value: slog.GroupValue(inner...)})
+		} else {
+			grp = slog.Attr{Key: "g", Value: slog.GroupValue(inner...)}
+		}
+		uses := g.Range(2, 6)
+		var got []int
+		bad := ""
+		for u := 0; u < uses && bad == ""; u++ {
+			sink.Reset()
+			var h slog.Handler = root
+			if g.P(1, 3) {
+				h = root.WithGroup(fmt.Sprintf("wg%d", u))
+			}
+			if g.Bool() {
+				// through WithAttrs of a sibling handler: resolved when the handler is derived
+				h = h.WithAttrs([]slog.Attr{grp})
+				_ = h.Handle(context.Background(), slog.NewRecord(time.Time{}, slog.LevelInfo, "m", 0))
+			} else {
+				rc := slog.NewRecord(time.Time{}, slog.LevelInfo, "m", 0)
+				rc.AddAttrs(grp)
+				_ = h.Handle(context.Background(), rc)
+			}
+			line := string(sink.All())
+			k := strings.Index(line, `"cv":`)
+			if k < 0 {
+				bad = fmt.Sprintf("use %d: the entry lacks the resolved LogValuer: %q", u, line)
+				break
+			}
+			v := 0
+			fmt.Sscanf(line[k+5:], "%d", &v)
+			got = append(got, v)
+			if len(got) > 1 && v <= got[len(got)-2] {
+				bad = fmt.Sprintf("use %d emitted value %d after %v: the LogValuer inside the group was not resolved afresh (a stale resolved value is reused)", u, v, got[:len(got)-1])
+			}
+		}
+		r.Eval(1)
+		r.Distinct(fmt.Sprintf("valuer|%d|%d|%v", i, uses, nested))
+		r.Count("valuer_reuse_cases", 1)
+		if bad == "" && inner[0].Value.Kind() != slog.KindLogValuer {
+			bad = "after handling, the caller's group attribute no longer holds the LogValuer: the handler wrote the resolved value back into the caller's attributes"
+		}
+		if bad != "" {
+			r.Violate(ev.Violation{Case: id, Class: "slog-valuer-reuse", Msg: bad, Witness: map[string]any{"values_emitted": got, "nested": nested}})
+		}
 	}
 }
